@@ -812,9 +812,13 @@ impl ReCompiler {
                         max,
                         match_length,
                     )))
-                } else {
-                    // otherwise need to match with nothing
+                } else if min == 0 {
+                    // a term that only ever matches the empty string, zero
+                    // or more times: no constraint at all
                     Ok(Operation::from(Nothing))
+                } else {
+                    // at least once: one occurrence is as good as many
+                    Ok(ret)
                 }
             } else {
                 Ok(Operation::from(Repeat::new(ret, min, max, true)))
